@@ -12,7 +12,7 @@ if REPO not in sys.path:
     sys.path.insert(0, REPO)
 sys.dont_write_bytecode = True
 warnings.simplefilter('ignore')
-logging.disable(logging.CRITICAL)
+# (the library's log records go to a null handler: see set_logging below)
 
 import pamqp  # noqa: E402
 from pamqp import (base, body, commands, constants, decode, encode, exceptions, frame, header,  # noqa: E402,F401
@@ -93,8 +93,55 @@ def deadline(seconds):
         _DEADLINE_ACTIVE[0] = False
 
 
+# ---- the application's logging configuration is part of the environment a call runs in, not of its arguments:
+# results must not depend on it. In 'mixed' mode every call into the library alternates between the default
+# configuration and DEBUG enabled for the `pamqp` loggers (records go to a null handler).
+import logging  # noqa: E402
+
+LOGMODE = 'default'
+_LOGN = [0]
+
+
+class _NullHandler(logging.Handler):
+    def emit(self, record):
+        pass
+
+
+_NULL = _NullHandler()
+logging.getLogger('pamqp').addHandler(_NULL)
+logging.getLogger('pamqp').propagate = False
+
+
+def set_logging(debug):
+    lg = logging.getLogger('pamqp')
+    if debug:
+        if _NULL not in lg.handlers:
+            lg.addHandler(_NULL)
+        lg.setLevel(logging.DEBUG)
+    else:
+        lg.setLevel(logging.NOTSET)
+    for name in list(logging.root.manager.loggerDict):
+        if name.startswith('pamqp.'):
+            sub = logging.getLogger(name)
+            if isinstance(sub, logging.Logger):
+                sub.setLevel(logging.NOTSET)
+
+
+def tick_logging():
+    if threading.current_thread() is not threading.main_thread():
+        return
+    if LOGMODE == 'mixed':
+        _LOGN[0] += 1
+        set_logging(_LOGN[0] % 2 == 0)
+    elif LOGMODE == 'debug':
+        set_logging(True)
+    else:
+        set_logging(False)
+
+
 def outcome(fn, *args, show=None, limit=3.0):
     """'ok <shown result>' | 'err <class>' | 'hang'"""
+    tick_logging()
     try:
         if threading.current_thread() is threading.main_thread():
             with deadline(limit):
